@@ -11,6 +11,7 @@ transport error) and every reachable state / accepted event, i.e. every finite e
 -/
 import KafkaVerif.Lemmas.WriterCompl
 import KafkaVerif.Lemmas.WriterMsgs
+import KafkaVerif.Lemmas.WriterLogJournal
 import KafkaVerif.Gen.WriterConsts
 
 namespace KV.C01
@@ -315,6 +316,14 @@ theorem dups_only_after_lost_ack (cfg : Cfg) (s : State) (hr : Reachable cfg s) 
   | acked => exact absurd ho hna
   | lost a => rw [ho] at happ; simp [BrOut.applied] at happ; rw [happ]
   | rejected c => rw [ho] at happ; simp [BrOut.applied] at happ
+
+/-- **log_is_applied_journal** — the log of every topic-partition is exactly the concatenation, in the order of the
+broker's decisions, of the batches of the produce attempts it applied to that partition ("it appears in the log at
+most once per produce attempt that the broker actually applied" — and at least once, and nothing else appears). -/
+theorem log_is_applied_journal (cfg : Cfg) (s : State) (hr : Reachable cfg s) (tp : TP) :
+    (s.log tp).map (·.msg) =
+      (s.journal.filter (fun j => j.out.applied && (j.tp == tp))).flatMap (fun j => batchMsgs s.batches j.batch) :=
+  (invLogJ cfg s hr).logJournal tp
 
 /-- **acked_has_journal_entry** — "acknowledged" is the broker's own record: a batch counts as acknowledged exactly
 when the journal holds an applied-and-acknowledged decision for it on its topic-partition. -/
